@@ -294,6 +294,7 @@ RULES = [
     ("C10-R3", "exit status mapping", r3),
     ("C10-R4", "nothing is printed before a parse-time rejection", r4),
     ("C10-R5", "grammar functions never return Ok(None)", r5),
+    ("C05-R1", "sort keys: the comparison of two buffer keys is a consistent order also for empty values of unreadable entries (an inconsistent one makes the ordered buffer panic) [shared with C05]", lambda ctx: __import__("c05").r1(ctx)),
 ]
 
 EXPLANATION = (
